@@ -15,6 +15,8 @@ be an ENABLED step of this model in the state reached by the preceding trace.
 import NeoModel.Model.Dbft
 import NeoModel.Proofs.DbftRun
 import NeoModel.Proofs.DbftLock
+import NeoModel.Proofs.DbftLive
+import NeoModel.Proofs.DbftChain
 namespace NeoModel.Dbft
 
 /-! ### 1. Agreement -/
@@ -38,6 +40,23 @@ theorem agreement_at (c : Cfg) (hn : 0 < c.n) (s : State) (hr : Reachable c s) (
   obtain ⟨m2, e2⟩ := blockAt_some hb'
   exact agreement c hn s hr i j b b' m1 m2 (by omega)
 
+/-- C19 (ledgers are complete): a validator working on height `H` has exactly one block for each of the
+heights `1 … H-1` on its ledger, and nothing else. -/
+theorem ledger_contiguous (c : Cfg) (s : State) (hr : Reachable c s) (i : Nat) :
+    (s.nodes i).chain.length + 1 = (s.nodes i).height ∧
+    ∀ h, 1 ≤ h → h < (s.nodes i).height → ∃ b, b ∈ (s.nodes i).chain ∧ b.h = h :=
+  have cs := (inv_reachable c s hr).chainShape i
+  ⟨chainAt_length cs, chainAt_mem cs⟩
+
+/-- C19 (one chain): in every reachable state the ledgers of any two validators are prefixes of one
+another — the ledger of the validator that is behind is exactly the older part of the other's ledger
+(`<:+` because ledgers are kept newest first). -/
+theorem ledgers_are_prefixes (c : Cfg) (hn : 0 < c.n) (s : State) (hr : Reachable c s) (i j : Nat)
+    (hle : (s.nodes i).height ≤ (s.nodes j).height) : (s.nodes i).chain <:+ (s.nodes j).chain := by
+  have inv := inv_reachable c s hr
+  exact chainAt_suffix (inv.chainShape i) (inv.chainShape j) hle
+    (fun b b' hb hb' hh => agreement c hn s hr i j b b' hb hb' hh)
+
 private abbrev c4 : Cfg := cfg4
 private def blk (h v p : Nat) : Block := ⟨h, v, p⟩
 private def it (x : Item) : Msg := .item x
@@ -59,6 +78,10 @@ private def round1 : List Action :=
 -- non-vacuity: the schedule is enabled step by step, three ledgers end up holding the block
 example : (run c4 init round1).map (fun s => ((s.nodes 0).chain, (s.nodes 2).chain, (s.nodes 3).chain,
     (s.nodes 1).chain, (s.nodes 3).height)) = some ([blk 1 0 7], [blk 1 0 7], [blk 1 0 7], [], 2) := by decide
+
+-- non-vacuity: after `round1` validator 1 is still at height 1 with an empty ledger, a proper prefix of the others'
+example : (run c4 init round1).map (fun s => ((s.nodes 1).height, (s.nodes 0).height,
+    decide ((s.nodes 1).chain <:+ (s.nodes 0).chain), (s.nodes 0).chain.length)) = some (1, 2, true, 1) := by decide
 
 /-! ### 2. The invariants behind it -/
 
@@ -176,16 +199,48 @@ example : (run c4v init round1).map (fun s => (s.nodes 0).chain) = some [blk 1 0
 
 /-! ### 4. Liveness under synchrony -/
 
-/- Full statement (open): under partial synchrony — after some point all validators are honest, every
-payload is delivered within a view's timeout, timers fire in deadline order — every fair run of the model
-eventually increases every ledger's height, whatever state the asynchronous prefix left behind.
-What is proved: for the synchronous schedule family `fairRounds` (all validators honest; in every height
-the primary's timer fires, then every payload is delivered to everybody before any other timer) every step
-of the schedule is enabled and after `k` rounds every ledger holds the `k` proposed blocks, for the two
-validator counts of the property's quantifier (n = 4, f = 1 and n = 7, f = 2). The same schedule is run
-against the real services by the harness (profile `fair`), which also searches the adversarial-prefix +
-synchronous-suffix schedules for a stall. -/
+/- Full statement: under partial synchrony — after some point all validators are honest, every payload is
+delivered within a view's timeout, timers fire in deadline order — every fair run eventually increases
+every ledger's height, whatever state the asynchronous prefix left behind. That statement is FALSE for
+dBFT 2.0 (section 5 proves the negation on a concrete reachable state; the real services reproduce it:
+known finding `dbft20-liveness-lock`). What is proved is liveness of runs that are synchronous from a
+clean state on (all validators honest, in every height the primary's timer fires and every payload is
+delivered to everybody before any other timer): for EVERY n ≥ 1, from EVERY clean state (everybody at
+height h, view 0, nothing prepared or signed for h yet — e.g. the state after any decided height in which
+everybody caught up, or the initial state), every step of the synchronous schedule is enabled and k rounds
+put the k proposed blocks, in order, on every ledger, leaving a clean state again. The same schedule is run
+against the real services by the harness (profile `fair`: every height must be decided in view 0 after
+exactly the primary's timeout and carry the pending transactions). -/
 
+/-- C19 (liveness under synchrony, one height): for every n and every clean state, every step of the
+synchronous schedule of height `h` with proposal `p` is enabled; afterwards every validator's ledger has the
+proposed block on top, everybody is at height `h+1` in view 0 with nothing prepared or signed for it, and
+the network holds what it held before (nothing of the round is left in flight). -/
+theorem liveness_sync_round (c : Cfg) (hn : 0 < c.n) (s : State) (h p : Nat) (hc : Clean c s h)
+    (hprop : c.propose (c.primary h 0) ⟨h, 0, p⟩ = true) (hver : ∀ j, c.verify j ⟨h, 0, p⟩ = true) :
+    ∃ s', run c s (fairRound c h p) = some s' ∧ Clean c s' (h + 1) ∧ s'.net = s.net ∧
+      ∀ i, i < c.n → (s'.nodes i).chain = ⟨h, 0, p⟩ :: (s.nodes i).chain :=
+  sync_round c hn s h p hc hprop hver
+
+/-- C19 (liveness under synchrony, blocks keep being produced): `k` synchronous rounds from a clean state
+decide `k` consecutive heights; every ledger grows by exactly the `k` proposals, in order. -/
+theorem liveness_sync_partial (c : Cfg) (hn : 0 < c.n)
+    (hprop : ∀ i b, c.propose i b = true) (hver : ∀ i b, c.verify i b = true)
+    (k : Nat) (s : State) (h : Nat) (props : Nat → Nat) (hc : Clean c s h) :
+    ∃ s', run c s (fairRounds c h props k) = some s' ∧ Clean c s' (h + k) ∧ s'.net = s.net ∧
+      ∀ i, i < c.n → (s'.nodes i).chain = decided h props k ++ (s.nodes i).chain :=
+  sync_rounds c hn hprop hver k s h props hc
+
+/-- … in particular from the initial state, for any number of validators and rounds -/
+theorem liveness_sync_from_init (c : Cfg) (hn : 0 < c.n)
+    (hprop : ∀ i b, c.propose i b = true) (hver : ∀ i b, c.verify i b = true) (k : Nat) (props : Nat → Nat) :
+    ∃ s', run c init (fairRounds c 1 props k) = some s' ∧
+      ∀ i, i < c.n → (s'.nodes i).height = 1 + k ∧ (s'.nodes i).view = 0 ∧ (s'.nodes i).chain = decided 1 props k := by
+  obtain ⟨s', hrun, hclean, _, hch⟩ := liveness_sync_partial c hn hprop hver k init 1 props (clean_init c)
+  refine ⟨s', hrun, fun i hi => ⟨(hclean i hi).1, (hclean i hi).2.1, ?_⟩⟩
+  rw [hch i hi]; simp [init]
+
+-- non-vacuity: the concrete instances below run the schedule for n = 4 and n = 7 by evaluation
 private def c7 : Cfg := { n := 7 }
 
 set_option maxRecDepth 100000 in
